@@ -742,6 +742,12 @@ class Sym:
         return s
 
     def __abs__(s):
+        # sign known from the proved interval facts (range lemmas): no fork, no query
+        sg = _sgn(s.f)
+        if sg in ('pos', 'nonneg'):
+            return s
+        if sg in ('neg', 'nonpos'):
+            return -s
         # fork on the sign: keeps arguments of the primitives ITE-free
         if ENG.opts.get('abs', 'fork') == 'fork':
             if ENG.branch(s.t >= 0, [(x >= 0, abs(x) > 1e-9) for x in s.s]):
